@@ -118,13 +118,44 @@ def seeded_test(props=None):
     return res
 
 
+def benign_test(props=None):
+    """behaviour-preserving rewrites (/verif/benign/*.patch): every listed check must stay quiet"""
+    base = os.path.join(VERIF, "benign")
+    res = []
+    if not os.path.isdir(base):
+        return res
+    for f in sorted(os.listdir(base)):
+        if not f.endswith(".patch"):
+            continue
+        meta = json.load(open(os.path.join(base, f[:-6] + ".json")))
+        plist = [p for p in meta["properties"] if not props or p in props]
+        if not plist:
+            continue
+        t0 = time.time()
+        try:
+            r = run_mutant(os.path.join(base, f), plist)
+        except CheckerError as e:
+            res.append({"property": ",".join(plist), "mutant": "benign/" + f, "status": "checker-error", "detail": str(e)[-300:]})
+            continue
+        if "_skipped" in r:
+            res.append({"property": ",".join(plist), "mutant": "benign/" + f, "status": "skipped", "detail": r["_skipped"]})
+            continue
+        noisy = {p: sorted({o["key"] for o in r[p][1]})[:4] for p in plist if r[p][0] != 0}
+        res.append({"property": ",".join(plist), "mutant": "benign/" + f, "status": "quiet" if not noisy else "false-alarm",
+                    "fired": noisy, "wall_s": round(time.time() - t0, 1)})
+    return res
+
+
 def main(args):
     props = [a for a in args if a.startswith("C")] or None
     res = selftest(props) + seeded_test(props)
+    ben = benign_test(props)
+    for r in ben:
+        print("[selftest] %s %s: %s %s" % (r["property"], r["mutant"], r["status"], r.get("fired", "")))
     for r in res:
         if r["mutant"].startswith("seeded/"):
             print("[selftest] %s %s: %s %s" % (r["property"], r["mutant"], r["status"], r.get("fired", "")))
-    bad = [r for r in res if r["status"] in ("missed", "checker-error")]
+    bad = [r for r in res if r["status"] in ("missed", "checker-error")] + [r for r in ben if r["status"] in ("false-alarm", "checker-error")]
     print(json.dumps({"mutants": len(res), "detected": sum(1 for r in res if r["status"] == "detected"),
                       "missed": [r["mutant"] for r in res if r["status"] == "missed"],
                       "skipped": [r["mutant"] for r in res if r["status"] == "skipped"],
